@@ -559,6 +559,12 @@ bool Message::checkLevel(const string& level, const string& checkLevels) {
   }
   size_t len = level.length();
   size_t maxLen = checkLevels.length();
+  for (size_t pos = checkLevels.find('*'); pos != string::npos; pos = checkLevels.find('*', pos + 1)) {
+    if ((pos == 0 || checkLevels[pos - 1] == VALUE_SEPARATOR)
+        && (pos + 1 == maxLen || checkLevels[pos + 1] == VALUE_SEPARATOR)) {
+      return true;  // wildcard as part of a list
+    }
+  }
   for (size_t pos = checkLevels.find(level); pos != string::npos && pos + len <= maxLen;
       pos = checkLevels.find(level, pos)) {
     if ((pos == 0 || checkLevels[pos - 1] == VALUE_SEPARATOR)
